@@ -314,7 +314,7 @@ def vary_solve_op(rng, prev, n):
 
 def gen_system_spec(rng):
     n = rng.choice([1, 2, 3, 4, 6])
-    kind = rng.choice(['linear', 'linear', 'linparam', 'cubic', 'cubic', 'mixed3', 'sqrt', 'time', 'time'])
+    kind = rng.choice(['linear', 'linear', 'linparam', 'linparam', 'cubic', 'cubic', 'mixed3', 'sqrt', 'time', 'time'])
     spec = dict(n=n, kind=kind, mat=gen_matrix_spec(rng, n), sseed=rng.randrange(1 << 30), functional=rng.random() < 0.5, coef=rng.choice([0.1, 1., 10.]))
     if kind == 'linparam':
         spec['a1'] = rng.choice(['rand', 'rand', 'torot', 'toperm'])
@@ -341,7 +341,9 @@ def gen_system_op(rng, spec):
                     maxiter=rng.choice([5, 10, 30]), use_t=rng.random() < 0.7, use_dt=rng.random() < 0.8, vseed=rng.randrange(1 << 30))
     if linear and r < (0.6 if spec.get('structural') else 0.2):
         return dict(op='constraints', droptol=rng.choice([1e-12, 1e-6, 1e-2, 1.0] + ([0.3, 1.0, 1.0] if spec.get('structural') else [])), cons=rng.choice(['none', 'bool', 'float']), cmask=[rng.random() < 0.3 for _ in range(n)], vseed=rng.randrange(1 << 30))
-    if linear:
+    if spec['kind'] == 'linparam' and rng.random() < 0.6:
+        method = 'arnoldi'   # the method that exists for parameter dependent linear systems: one object re-used along the history
+    elif linear:
         method = rng.choice([None, None, 'direct', 'direct_noatol', 'arnoldi', 'arnoldi', 'newton', 'linesearch', 'minimize', 'legacy_linear', 'legacy_optimize', 'legacy_theta'])
     else:
         method = rng.choice([None, 'newton', 'newton', 'reuse', 'linesearch', 'linesearch_median', 'minimize', 'pseudotime', 'legacy_newton', 'legacy_minimize', 'legacy_optimize', 'legacy_pseudotime', 'legacy_theta'])
@@ -375,7 +377,7 @@ def gen_case(rng, index, tier):
         case = dict(kind='matrix', spec=spec, ops=ops, faults={})
     else:
         spec = gen_system_spec(rng)
-        ops = [gen_system_op(rng, spec) for _ in range(rng.choice([1, 1, 2, 3, 5] if spec['kind'] != 'time' else [1, 2, 3, 4, 6]))]
+        ops = [gen_system_op(rng, spec) for _ in range(rng.choice([1, 1, 2, 3, 5] if spec['kind'] not in ('time', 'linparam') else [1, 2, 3, 4, 6]))]
         for k in range(1, len(ops)):
             if ops[k - 1]['op'] == 'solve' and rng.random() < 0.4:
                 # the previous solve again with one thing changed (parameter, warm start, constraints): what re-used method objects and memo tables see in practice
